@@ -1,18 +1,19 @@
 #!/bin/bash
 # usage: tools/seedtest.sh <patch-file> <property> [tier]
-# applies a seeded change to /repo's working tree, runs the check, restores the tree.  Never commits.
+# Applies a seeded change to a SCRATCH CLONE of /repo (current HEAD + working tree state is NOT touched), runs the check
+# against that clone (PYVC_REPO), prints the verdict lines, removes the clone.  Evidence / replays of the run go to the
+# scratch directory, so /verif/evidence is not rewritten and several seed tests can run in parallel.
 set -u
 patch=$(readlink -f "$1"); prop=$2; tier=${3:-quick}
 cd "$(dirname "$0")/.."
-if [ -n "$(git -C /repo status --porcelain --untracked-files=no)" ]; then echo "/repo working tree not clean"; exit 9; fi
-git -C /repo apply "$patch" || { echo "patch does not apply"; exit 9; }
-./check "$prop" --tier "$tier" > /tmp/seedtest.$$.log 2>&1; rc=$?
-git -C /repo checkout -- . 
-grep -E "^(VIOLATION|KNOWN-FINDING|UNDECIDED|CHECKER-ERROR)" /tmp/seedtest.$$.log | cut -c1-400
-grep -A1 "^VIOLATION" /tmp/seedtest.$$.log | grep "obligation" | cut -c1-500
-tail -1 /tmp/seedtest.$$.log | cut -c1-200
+scratch=$(mktemp -d /tmp/pyvc_seed_XXXXXX)
+git clone -q /repo "$scratch/repo" || { echo "clone failed"; exit 9; }
+git -C "$scratch/repo" apply "$patch" || { echo "patch does not apply"; rm -rf "$scratch"; exit 9; }
+PYVC_REPO="$scratch/repo" PYVC_EVIDENCE_DIR="$scratch/evidence" PYVC_REPLAY_DIR="$scratch/replays" \
+  ./check "$prop" --tier "$tier" > "$scratch/log" 2>&1; rc=$?
+grep -E "^(VIOLATION|KNOWN-FINDING|UNDECIDED|CHECKER-ERROR)" "$scratch/log" | sed "s#$scratch#<scratch>#g" | cut -c1-400
+grep -A1 "^VIOLATION" "$scratch/log" | grep "obligation" | cut -c1-500
+tail -1 "$scratch/log" | cut -c1-200
 echo "exit=$rc"
-rm -f /tmp/seedtest.$$.log
-# restore evidence of the unchanged tree (the run above rewrote it)
-git checkout -- evidence/"$prop".json 2>/dev/null
+rm -rf "$scratch"
 exit $rc
